@@ -49,6 +49,13 @@ PROPS = {
         "rule": "one evaluation = one honest proving request (generated circuit program with a satisfying tape, constraint count 2^k+d with d in -8..8, k=3..10 (thorough: ..12), public inputs on generated rows incl. first user row / last row of a full domain / adjacent / zero-valued, raw zero rows with arbitrary selectors, SRS exactly sufficient or ample) pushed through the fault-free deployment: compile by a seeded route (compile_with_circuit / compile::<C> via Default / compressed), keys used directly or after a restart (drop + reload from bytes), prove under a seeded pool/schedule/hash stream with V3 or V2, deliver to the real verifier and the independent reference verifier. Non-trivial = non-default route, or a restart, or a non-canonical environment; distinct = hash of (scenario shape, environment, route, proof index).",
         "assumptions": ["degenerate RNG draws (probability ~2^-250) are outside the property and are not injected here"],
     },
+    "C02": {
+        "level": "exploration",
+        "runs": {"quick": 400, "thorough": 10000},
+        "budget_s": {"quick": 400, "thorough": 3000},
+        "rule": "one evaluation = one adversarial (proof, public inputs) message delivered to the real verifier and to RM-verify; the verdict must be an error, never Ok, never a panic. Strategy classes of the Byzantine prover actor: (1) the honest proving algorithm run on a witness table corrupted at a seeded allocation instant (bit flip, +-1, x2, negate, 0, 1, -1, 2, 2^j, 2^j-1, stale copy, random, r_jubjub, r_jubjub-1) with the unsatisfied-circuit check forced off and the quotient remainder dropped (hooks witness_fault + force), kept only when the independent row evaluator RM-rows reports a violated gate identity or copy constraint; (2) the same on the re-wired twin program (every row satisfied, one compiled copy constraint broken); the forged proof also with the honest public inputs; (3) field-wise splices of two valid proofs of the circuit; (4) swap of fields within a proof and fresh valid elements in any of the 26 fields; (5) all-zero and all-identity proofs with the honest public inputs and with zeros; (6) a valid proof replayed with other public inputs. Non-trivial = every delivered message; distinct = hash of (scenario, fault / message bytes).",
+        "assumptions": ["adversaries are sampled by strategy class; this is not a soundness proof. Solved-for forgeries of evaluations (tier B of DESIGN.md, needs an independent prover) are not built", "RM-rows and RM-verify are the trusted base"],
+    },
     "C03": {
         "level": "exploration",
         "runs": {"quick": 400, "thorough": 8000},
@@ -62,6 +69,20 @@ PROPS = {
         "budget_s": {"quick": 400, "thorough": 3000},
         "rule": "one evaluation = one delivery of an honestly produced (proof, public inputs, version) message under a channel fault: public-input vector edits (every position +1 / 0 / swap / drop / duplicate, seeded replace, append, prepend, clear), delivery to the verifier of a near-miss circuit (one selector, one constant, one operand wire, one public-input row, one constraint more/fewer; skipped and counted when the verifier bytes are identical), of another label (byte flipped / appended / prepended / truncated / empty), of another protocol version (all ordered pairs V2,V3 x V1,V2,V3), duplicate delivery. Oracle by message identity: only the exact honest tuple may be accepted; a panic is a violation; RM-verify mirrors every decision. Non-trivial = the delivered tuple differs from the honest one.",
         "assumptions": ["V1 has no prover in the library, so V1 appears only on the verifier side of the version pairs"],
+    },
+    "C05": {
+        "level": "exploration",
+        "runs": {"quick": 800, "thorough": 20000},
+        "budget_s": {"quick": 400, "thorough": 3000},
+        "rule": "one evaluation = one proving request on a faulty host: the value stored at a seeded witness-allocation instant k is corrupted (same menu as C02) and everything computed afterwards proceeds honestly, or one operand of one arithmetic row is re-wired to a fresh witness with another value (twin: rows hold, a compiled copy constraint breaks); the unsatisfied-circuit check stays on. Oracle: the independent row-by-row evaluator RM-rows (each identity component of the arithmetic / range / logic / fixed-base / curve-addition widgets separately, next-row wires cyclic over the padded domain, compiled copy constraints value-wise) on the snapshot of the faulted instance against the compiled layout: satisfied => Prover::prove is Ok and the proof is accepted by the real and the reference verifier; violated => Err(CircuitUnsatisfied); other row count => Err(InvalidCircuitSize); synthesis error => that error; never a panic. Programs include raw rows with arbitrary selector combinations and a selected row on the last row of a full domain. Thorough tier: for every 8th program with <= 300 witnesses every allocation instant x 8 fixed corruption kinds is enumerated. Non-trivial = the fault changed a stored value (or a twin).",
+        "assumptions": ["RM-rows treats each identity component separately; the prover combines them with random separation challenges, so the two can differ only with probability ~2^-250", "RM-rows (sim/plonksim/src/rm_rows.rs) and RM-verify are the trusted base"],
+    },
+    "C07": {
+        "level": "exploration",
+        "runs": {"quick": 6000, "thorough": 200000},
+        "budget_s": {"quick": 400, "thorough": 3000},
+        "rule": "one evaluation = one synthesis of a generated program (every public composer component incl. range / logic / truncate / decomposition at the widths of the menu, point components, mul_point and mul_generator, raw rows) under a fault injected during synthesis: the witness-allocation hook corrupts the value stored at instant k (menu as in C02; for every 4th program with <= 400 witnesses every instant is enumerated), or a hostile tape delivers corrupted request values (off-curve point, (0,0), zero-Z extended point, mixed-order and small-order curve points, order-2 point, inconsistent T1*T2, scaled-Z representation, identity; scalars 2 as a bit, -1, r_jubjub, r_jubjub-1, 2^k, 2^k-1, 2^252, random). Oracle: synthesis returns Err, or the snapshot's selectors, wiring, public-input rows, row count and witness count equal those of the default (zero-tape) instance; a panic is a violation; abort / hang are caught by the supervisor through pre-case log lines. Non-trivial = every faulted synthesis.",
+        "assumptions": ["const-generic widths are monomorphised from a fixed menu (range bits 0..256 at 29 widths, bit-pairs at 13, logic at 12, truncate at 16, decomposition at 12)"],
     },
     "C15": {
         "level": "exploration",
